@@ -263,6 +263,17 @@ func ProfileFor(prop string) Profile {
 		p.WAddRemove = 14
 		p.WBind = 10
 		p.Ops = 30
+	case "widememo":
+		// nodes wider than the edge-index threshold read through the right-hand sides of MEMOIZED
+		// binds: a parked (cached, unused) right-hand side releases them, a returning key takes them back
+		p.Wide = true
+		p.MapNShare = 30
+		p.WAddRemove = 8
+		p.WBind = 30
+		p.Memo = 70
+		p.WPurge = 4
+		p.WSet = 40
+		p.Ops = 36
 	case "reject":
 		p.MaxHeight = 7
 		p.WBind = 25
